@@ -65,6 +65,7 @@ func c08Schema(pq bool) models.IndexSchema {
 		"flat": gen.Flat(4, models.DistanceEuclidean, nil),
 		"fb":   gen.Flat(20, models.DistanceDot, gen.BinaryQ(&thr, 0, models.DistanceJaccard)),
 		"fh":   gen.Flat(10, models.DistanceHamming, nil),
+		"fl":   gen.Flat(6, models.DistanceEuclidean, gen.BinaryQ(nil, 30, models.DistanceHamming)),
 		"txt":  gen.Text(),
 		"n":    gen.Int(),
 		"f":    gen.Float(),
@@ -123,7 +124,7 @@ func buildBattery(g *gen.G, m *model.Model, schema models.IndexSchema, dead []uu
 		f, _, _ := genFilter(g, m, schema)
 		return f
 	}
-	for _, p := range []string{"flat", "fb", "fh", "fp"} {
+	for _, p := range []string{"flat", "fb", "fh", "fl", "fp"} {
 		sv, ok := schema[p]
 		if !ok {
 			continue
@@ -451,6 +452,22 @@ func (c08) RunCase(c fw.Case, env *fw.Env) *fw.CaseResult {
 	steps := c.Int("steps", 24)
 	var dead []uuid.UUID
 	script := []string{}
+	// when a learned quantiser becomes trained is a function of the committed history, not of the
+	// cache configuration (see trainWatch)
+	watches := map[string]map[string]*trainWatch{}
+	for _, p := range prims {
+		if p.s.Path == "" {
+			continue
+		}
+		watches[p.name] = map[string]*trainWatch{}
+		for prop, sv := range schema {
+			if sv.Type == models.IndexTypeVectorFlat || sv.Type == models.IndexTypeVectorVamana {
+				if w := newTrainWatch(prop, sv); w.learned {
+					watches[p.name][prop] = w
+				}
+			}
+		}
+	}
 	for step := 0; step < steps; step++ {
 		var op gen.Op
 		if step == 0 && pq {
@@ -487,6 +504,21 @@ func (c08) RunCase(c fw.Case, env *fw.Env) *fw.CaseResult {
 			}
 		}
 		h.Applied(op, out.Deleted)
+		for _, p := range prims {
+			ws := watches[p.name]
+			if len(ws) == 0 {
+				continue
+			}
+			dump, err := sx.DumpStore(p.s.Shard.VerifDiskStore(), schema)
+			if err != nil {
+				res.Violate("dump-error", "C08:dump", err.Error(), nil)
+				continue
+			}
+			for prop, w := range ws {
+				o := newVecOracle(dump, prop, schema[prop])
+				w.step(res, "C08:"+p.name+":"+prop, pre, m, op, out.Succeeded, o.trained(), step)
+			}
+		}
 		dead = append(dead, out.Deleted...)
 		if len(dead) > 50 {
 			dead = dead[len(dead)-50:]
